@@ -888,6 +888,15 @@ func CombinatorProgs() []Prog {
 		one("OneOf(Just(forbidden String), Just(forbidden String))", "comb", func() *rapid.Generator[noString] {
 			return rapid.OneOf(rapid.Just(noString{1}), rapid.Just(noString{2}))
 		}, func(v noString) string { return noStringCheck(v.n == 1 || v.n == 2) }),
+		one("SliceOfN(Just(forbidden String),1,2)", "comb coll", func() *rapid.Generator[[]noString] { return rapid.SliceOfN(rapid.Just(noString{4}), 1, 2) }, func(v []noString) string {
+			return noStringCheck(len(v) >= 1 && len(v) <= 2 && v[0].n == 4)
+		}),
+		one("MapOf(Int8(),Just(forbidden String))", "comb coll rej", func() *rapid.Generator[map[int8]noString] { return rapid.MapOf(rapid.Int8(), rapid.Just(noString{5})) }, func(v map[int8]noString) string {
+			return noStringCheck(true)
+		}),
+		one("SliceOfDistinct(OneOf(Just(forbidden String)...))", "comb coll rej", func() *rapid.Generator[[]noString] {
+			return rapid.SliceOfDistinct(rapid.OneOf(rapid.Just(noString{1}), rapid.Just(noString{2})), func(v noString) int { return v.n })
+		}, func(v []noString) string { return noStringCheck(len(v) <= 2) }),
 		// Make for maps whose key type has very few values: once they are used up every further entry is a
 		// duplicate, which must end in a forced stop (a smaller valid map), never in an endless search for a new key
 		one("Make[map[bool]int8]", "comb rej", rapid.Make[map[bool]int8], func(m map[bool]int8) string { return lenIn(len(m), 0, 2) }),
